@@ -410,7 +410,7 @@ def main(tier, seed):
               "(vlib/arith_ref.py); where they differ or the docs state a deviation nothing is asserted.")
     run.functions = FUNCS
     hs = harnesses(tier)
-    timeout = 20 if tier == "quick" else 240
+    timeout = 20 if tier == "quick" else 60
     run.assumptions = ["reference = ISO/Yap/SWI common semantics: // truncates toward zero, div floors, mod has the sign of the "
                        "divisor, round and integer round half away from zero, sign and abs keep the type, float_integer_part "
                        "returns a float; NOT asserted: rem (documented deviation), int/int with /, ** on ints, negative shift "
